@@ -148,8 +148,11 @@ class Probe:
         self.fn, self.recv, self.args, self.shape, self.extra = fn, recv, list(args), shape, extra
         self.ascii_only = all(ord(c) < 128 for c in src_of(recv) + "".join(src_of(a) for a in args))
 
+    def group(self):
+        return Group(self.fn, self.recv, [[(a, None)] for a in self.args], self.shape, self.extra)
+
     def wire(self):
-        return ";".join(["%d %d" % (FN[self.fn], self.extra), wire_of(self.recv)] + [wire_of(a) for a in self.args])
+        return batch_wire([self.group()])
 
     def body(self):
         r = src_of(self.recv)
@@ -249,114 +252,129 @@ def sequences(maxlen):
     return out
 
 
-def gen_probes(quick, rng_):
-    """the sweep; returns list of Probe.  Exhaustive over the stated pools (no sampling) except where noted."""
-    P = []
+class Group:
+    """one row of the wire format: fn/receiver plus the cartesian product of argument lists of (value, label)"""
+
+    def __init__(self, fn, recv, lists, prefix, extra=0, as_range=False):
+        self.fn, self.recv, self.lists, self.prefix, self.extra, self.as_range = fn, recv, lists, tuple(prefix), extra, as_range
+
+    def size(self):
+        n = 1
+        for l in self.lists:
+            n *= len(l)
+        return n
+
+    def probes(self):
+        for combo in itertools.product(*self.lists):
+            args = [v for v, _ in combo]
+            if self.as_range:
+                args = [rng(args[0], args[1])]
+            yield Probe(self.fn, self.recv, args, self.prefix + tuple(l for _, l in combo), self.extra)
+
+
+def one(fn, recv, args, shape, extra=0):
+    return Group(fn, recv, [[(a, None)] for a in args], shape, extra)
+
+
+def gen_groups(quick):
+    """the sweep, exhaustive over the stated pools (no sampling)"""
+    G = []
     maxc = 3 if quick else 4
     strs = strings(maxc)
     short = strings(2)
-    # --- string indexing / slicing, char_byte_index, find, iteration, simple natives
+    core_subs = ("a", "\u00e9\u20ac", "\U0001F600")
     for t in strs:
         s = st(t)
         L = len(t.encode("utf-8"))
         bd = boundaries(t)
         nch = len(t)
+        big = len(t) > 3
         ipool = index_pool(L, bd, True)
-        for v, lab in ipool:
-            P.append(Probe("index", s, [v], ("str", lab)))
-        # ranges: every pair of integer endpoints + saturating ends + non-integral ends
-        ends = [(num(k), int_label(k, L, bd)) for k in int_pool(L, bd, not quick or L <= 4)]
+        G.append(Group("index", s, [ipool], ("str",)))
+        # ranges: every pair of integer endpoints + saturating ends; non-integral / non-number ends
+        ends = [(num(k), int_label(k, L, bd)) for k in int_pool(L, bd, L <= 4 or not (quick or big))]
         ends += [(P63, "2^63"), (N63, "-2^63"), (PINF, "+inf"), (NINF, "-inf")]
-        for (b, lb), (e, le) in itertools.product(ends, ends):
-            P.append(Probe("index", s, [rng(b, e)], ("str-range", lb, le)))
-        for bad, lab in [(HALF, "0.5"), (NAN, "NaN"), (NIL, "nil"), (st("a"), "str")]:
-            P.append(Probe("index", s, [rng(bad, num(1))], ("str-range", lab, "+1")))
-            P.append(Probe("index", s, [rng(num(0), bad)], ("str-range", "0", lab)))
-        P.append(Probe("index", s, [rng(HALF, NIL)], ("str-range", "0.5", "nil")))
-        # char_byte_index: bound is the number of characters
-        cb = list(range(nch + 1))
-        for v, lab in index_pool(nch, cb, True):
-            P.append(Probe("char_byte_index", s, [v], ("cbi", lab)))
+        G.append(Group("index", s, [ends, ends], ("str-range",), as_range=True))
+        bad = [(HALF, "0.5"), (NAN, "NaN"), (NIL, "nil"), (st("a"), "str")]
+        G.append(Group("index", s, [bad, [(num(1), "+1")]], ("str-range",), as_range=True))
+        G.append(Group("index", s, [[(num(0), "0")], bad], ("str-range",), as_range=True))
+        G.append(Group("index", s, [[(HALF, "0.5")], [(NIL, "nil")]], ("str-range",), as_range=True))
+        # char_byte_index: the bound is the number of characters
+        G.append(Group("char_byte_index", s, [index_pool(nch, list(range(nch + 1)), True)], ("cbi",)))
         # find
-        starts = index_pool(L, bd, True)
-        subs = short[1:] + ([] if quick else strings(3)[len(short):])
-        for sub in subs:
-            for v, lab in starts:
-                if quick and lab in ODD_LABELS and sub not in ("a", "\u00e9\u20ac", "\U0001F600"):
-                    continue
-                occurs = "hit" if sub in t else "miss"
-                P.append(Probe("find", s, [st(sub), v], ("find", "%d-char %s" % (len(sub), occurs), lab)))
-        for bad, lab in [(st(""), "empty"), (NIL, "nil"), (num(1), "num"), (vec(st("a")), "vec")]:
-            for v, lab2 in [(num(0), "0"), (NIL, "nil"), (num(L), "len"), (HALF, "0.5")]:
-                P.append(Probe("find", s, [bad, v], ("find", lab, lab2)))
+        subs = [(st(u), "%d-char %s" % (len(u), "hit" if u in t else "miss")) for u in short[1:]]
+        ints = [x for x in ipool if x[1] not in ODD_LABELS]
+        if quick or big:
+            G.append(Group("find", s, [[x for x in subs if x[0][1] in core_subs], ipool], ("find",)))
+            G.append(Group("find", s, [[x for x in subs if x[0][1] not in core_subs], ints], ("find",)))
+        else:
+            G.append(Group("find", s, [subs, ipool], ("find",)))
+        G.append(Group("find", s, [[(st(""), "empty"), (NIL, "nil"), (num(1), "num"), (vec(st("a")), "vec")],
+                                   [(num(0), "0"), (NIL, "nil"), (num(L), "len"), (HALF, "0.5")]], ("find",)))
         # iteration
-        P.append(Probe("iter_manual", s, [], ("iter", "%d chars" % nch), extra=nch + 2))
-        P.append(Probe("for", s, [], ("for", "%d chars" % nch)))
+        G.append(one("iter_manual", s, [], ("iter", "%d chars" % nch), extra=nch + 2))
+        G.append(one("for", s, [], ("for", "%d chars" % nch)))
         for f in ("len", "count_chars", "to_bytes", "to_code_points", "is_alpha", "is_digit", "is_hexdigit", "to_num"):
-            P.append(Probe(f, s, [], (f, "%d chars" % nch)))
+            G.append(one(f, s, [], (f, "%d chars" % nch)))
         # replace / split / starts_with / ends_with
-        for old in short:
-            for new in ([st(""), st("a"), st("\u00e9\u20ac")] if old else [st("a")]):
-                P.append(Probe("replace", s, [st(old), new], ("replace", "old %d-char %s" % (len(old), "hit" if old and old in t else "miss"), "new %d" % len(new[1]))))
-            P.append(Probe("split", s, [st(old)], ("split", "%d-char %s" % (len(old), "hit" if old and old in t else "miss"))))
-        for p in (short if quick else strings(3)):
-            rel = "eq" if p == t else ("affix" if t.startswith(p) or t.endswith(p) else ("longer" if len(p) > len(t) else "other"))
-            P.append(Probe("starts_with", s, [st(p)], ("starts_with", rel)))
-            P.append(Probe("ends_with", s, [st(p)], ("ends_with", rel)))
-    # a prefix that ends inside a character of the receiver cannot be written as a string; byte-level
-    # near misses instead: same lead byte, different continuation
+        olds = [(st(u), "old %d-char %s" % (len(u), "hit" if u and u in t else "miss")) for u in short]
+        G.append(Group("replace", s, [olds[1:], [(st(""), "new 0"), (st("a"), "new 1"), (st("\u00e9\u20ac"), "new 2")]], ("replace",)))
+        G.append(Group("replace", s, [olds[:1], [(st("a"), "new 1")]], ("replace",)))
+        G.append(Group("split", s, [olds], ("split",)))
+        rel = lambda p: "eq" if p == t else ("affix" if t.startswith(p) or t.endswith(p) else ("longer" if len(p) > len(t) else "other"))
+        pre = [(st(p), rel(p)) for p in (short if quick or big else strings(3))]
+        G.append(Group("starts_with", s, [pre], ("starts_with",)))
+        G.append(Group("ends_with", s, [pre], ("ends_with",)))
+    # byte-level near misses: same lead byte, different continuation
     for a, b in [("\u00e9", "\u00e8"), ("\u20ac", "\u20ad"), ("\U0001F600", "\U0001F601"), ("a\u00e9", "a\u00e8")]:
         for f in ("starts_with", "ends_with"):
-            P.append(Probe(f, st(a + "x" + a), [st(b)], (f, "near miss")))
-        P.append(Probe("find", st(a + b), [st(b), num(0)], ("find", "near miss", "0")))
-        P.append(Probe("replace", st(a + b + a), [st(b), st("-")], ("replace", "near miss", "new 1")))
-        P.append(Probe("split", st(a + b + a), [st(b)], ("split", "near miss")))
+            G.append(one(f, st(a + "x" + a), [st(b)], (f, "near miss")))
+        G.append(one("find", st(a + b), [st(b), num(0)], ("find", "near miss", "0")))
+        G.append(one("replace", st(a + b + a), [st(b), st("-")], ("replace", "near miss", "new 1")))
+        G.append(one("split", st(a + b + a), [st(b)], ("split", "near miss")))
     # wrong arity / wrong types for every method (receiver fixed)
     r0 = st("a\u00e9")
-    argpool = [num(0), st("a"), NIL, vec(num(97))]
+    argpool = [(num(0), "num"), (st("a"), "str"), (NIL, "nil"), (vec(num(97)), "vec")]
     for f, arity in [("len", 0), ("is_alpha", 0), ("is_digit", 0), ("is_hexdigit", 0), ("count_chars", 0), ("char_byte_index", 1),
                      ("find", 2), ("replace", 2), ("split", 1), ("starts_with", 1), ("ends_with", 1), ("to_num", 0),
                      ("to_bytes", 0), ("to_code_points", 0), ("iter_next_args", 0),
                      ("from_ascii", 1), ("from_utf8", 1), ("from_code_points", 1), ("from", 1)]:
-        for n in range(0, 4):
-            for args in itertools.product(argpool, repeat=n):
-                if n == 3 and args[0] != args[1]:
-                    continue
-                recv = NIL if f in STATIC else r0
-                P.append(Probe(f, recv, list(args), (f, "arity %d/%d" % (n, arity), ",".join(a[0] for a in args))))
-    # --- classification: boundaries of the ASCII classes
+        recv = NIL if f in STATIC else r0
+        for n in range(0, 3):
+            G.append(Group(f, recv, [argpool] * n, (f, "arity %d/%d" % (n, arity))))
+        for a in argpool:
+            G.append(Group(f, recv, [[a], [a], argpool], (f, "arity 3/%d" % arity)))
+    # classification: boundaries of the ASCII classes
     cls = ["/", "0", "9", ":", "@", "A", "F", "G", "Z", "[", "`", "a", "f", "g", "z", "{", "\u00e9", "\uff11"]
     for t in strings(2 if quick else 3, cls):
         for f in ("is_alpha", "is_digit", "is_hexdigit"):
-            P.append(Probe(f, st(t), [], (f, "class-boundary", "%d chars" % len(t))))
-    # --- to_num (String::parse::<f64>)
+            G.append(one(f, st(t), [], (f, "class-boundary", "%d chars" % len(t))))
+    # to_num (String::parse::<f64>)
     for t in ["", "0", "-0", "1", "1.5", "-1.5", "+2", ".5", "5.", "1e3", "1E-2", "1e400", "-1e400", "1e-400", "inf", "-inf", "Infinity",
               "nan", "NaN", "-nan", " 1", "1 ", "1_0", "0x10", "abc", "1e", "e5", ".", "+", "-", "\uff11", "1\u00e9", "9007199254740993",
               "0.1", "0.30000000000000004", "123456789012345678901234567890", "4.9e-324", "1.7976931348623157e308", "2.5e-324"]:
-        P.append(Probe("to_num", st(t), [], ("to_num", "text")))
-    # --- vec / tuple indexing, slicing, set_item
+        G.append(one("to_num", st(t), [], ("to_num", "text")))
+    # vec / tuple indexing, slicing, set_item
     for elems in sequences(3 if quick else 4):
         n = len(elems)
         bd = list(range(n + 1))
+        ipool = index_pool(n, bd, True)
+        ends = [(num(k), int_label(k, n, bd)) for k in int_pool(n, bd, True)] + [(P63, "2^63"), (N63, "-2^63")]
         for mk, kind in ((vec, "vec"), (tup, "tuple")):
-            recv = mk(*elems)
-            for v, lab in index_pool(n, bd, True):
-                P.append(Probe("index", recv, [v], (kind, lab)))
-            ends = [(num(k), int_label(k, n, bd)) for k in int_pool(n, bd, True)] + [(P63, "2^63"), (N63, "-2^63")]
-            for (b, lb), (e, le) in itertools.product(ends, ends):
-                P.append(Probe("index", recv, [rng(b, e)], (kind + "-range", lb, le)))
-        for v, lab in index_pool(n, bd, True) + [(rng(num(0), num(1)), "range")]:
-            P.append(Probe("set_item", vec(*elems), [v, st("X")], ("set_item", lab)))
+            G.append(Group("index", mk(*elems), [ipool], (kind,)))
+            G.append(Group("index", mk(*elems), [ends, ends], (kind + "-range",), as_range=True))
+        G.append(Group("set_item", vec(*elems), [ipool + [(rng(num(0), num(1)), "range")], [(st("X"), "str")]], ("set_item",)))
     for recv, lab in [(NIL, "nil"), (num(1), "num"), (("bool", True), "bool"), (rng(num(0), num(2)), "range")]:
-        P.append(Probe("index", recv, [num(0)], ("not-indexable", lab)))
-    # --- range construction and Display of the values used as arguments
+        G.append(one("index", recv, [num(0)], ("not-indexable", lab)))
+    # range construction and Display of the values used as arguments
     for (b, lb), (e, le) in itertools.product(NUM_SPECIALS + NON_NUMBERS[:2] + [(num(3), "int")], repeat=2):
-        P.append(Probe("value", rng(b, e), [], ("range-construction", lb, le)))
-    for v, lab in NUM_SPECIALS + NON_NUMBERS + [(num(1.25), "1.25"), (num(2.0 ** 53, "9007199254740992"), "2^53"), (num(1e21, "1000000000000000000000"), "1e21"), (num(1e-7, "0.0000001"), "1e-7"),
-                                                 (num(123456789.125), "frac9"), (vec(), "empty vec"), (tup(), "empty tuple"),
-                                                 (vec(num(1), st("x"), NIL), "mixed vec"), (tup(num(1), st("x")), "pair")]:
-        P.append(Probe("from", NIL, [v], ("from", lab)))
-    # --- from_utf8 over a byte alphabet of lead / continuation / illegal bytes
+        G.append(one("value", rng(b, e), [], ("range-construction", lb, le)))
+    disp = NUM_SPECIALS + NON_NUMBERS + [
+        (num(1.25), "1.25"), (num(2.0 ** 53, "9007199254740992"), "2^53"), (num(1e21, "1000000000000000000000"), "1e21"),
+        (num(1e-7, "0.0000001"), "1e-7"), (num(123456789.125), "frac9"), (vec(), "empty vec"), (tup(), "empty tuple"),
+        (vec(num(1), st("x"), NIL), "mixed vec"), (tup(num(1), st("x")), "pair")]
+    G.append(Group("from", NIL, [disp], ("from",)))
+    # from_utf8 over a byte alphabet of lead / continuation / illegal bytes
     balpha = [0x61, 0x7f, 0x80, 0xa9, 0xbf, 0xc0, 0xc2, 0xc3, 0xe0, 0xe2, 0x82, 0xac, 0xed, 0xa0, 0xf0, 0x9f, 0x98, 0xf4, 0x90, 0xf5, 0xff, 0x00]
     seqs = []
     for n in range(0, 3 if quick else 4):
@@ -371,29 +389,27 @@ def gen_probes(quick, rng_):
         seqs.append(w + w[:1])
         for i in range(len(w)):
             seqs.append(w[:i] + [w[i] ^ 0x40] + w[i + 1:])
-    for b in seqs:
-        P.append(Probe("from_utf8", NIL, [vec(*[num(x) for x in b])], ("from_utf8", "%d bytes" % len(b), valid_kind(bytes(b)))))
-    badel = [(num(256), "256"), (num(-1), "-1"), (HALF, "0.5"), (NAN, "NaN"), (PINF, "+inf"), (NIL, "nil"), (st("a"), "str"), (NEG0, "-0"), (num(255), "255")]
+    G.append(Group("from_utf8", NIL, [[(vec(*[num(x) for x in b]), "%d bytes %s" % (len(b), valid_kind(bytes(b)))) for b in seqs]], ("from_utf8",)))
+    badel = [(num(256), "256"), (num(-1), "-1"), (HALF, "0.5"), (NAN, "NaN"), (PINF, "+inf"), (NIL, "nil"), (st("a"), "str"), (NEG0, "-0"),
+             (num(255), "255"), (num(4294967295), "u32max"), (num(4294967296), "u32max+1")]
     for f, good in (("from_utf8", 0x61), ("from_ascii", 0x61), ("from_code_points", 0x20ac)):
-        for v, lab in badel + [(num(4294967295), "u32max"), (num(4294967296), "u32max+1")]:
-            P.append(Probe(f, NIL, [vec(v)], (f, "element", lab)))
-            P.append(Probe(f, NIL, [vec(num(good), v)], (f, "element after good", lab)))
-            P.append(Probe(f, NIL, [vec(v, NIL)], (f, "element before nil", lab)))
-        for v, lab in [(NIL, "nil"), (st("a"), "str"), (num(97), "num"), (tup(num(97)), "tuple"), (vec(), "empty vec")]:
-            P.append(Probe(f, NIL, [v], (f, "argument", lab)))
-    # --- from_ascii: every byte, and pairs around 127/128
-    for b in range(256):
-        P.append(Probe("from_ascii", NIL, [vec(num(b))], ("from_ascii", "byte>=128" if b > 127 else "byte<128")))
-    for a, b in itertools.product([0, 0x41, 127, 128, 169, 191, 192, 233, 255], repeat=2):
-        P.append(Probe("from_ascii", NIL, [vec(num(a), num(b))], ("from_ascii", "pair", "%d%d" % (a > 127, b > 127))))
-    # --- from_code_points: boundaries of the encoding lengths, surrogates, beyond 10FFFF
+        G.append(Group(f, NIL, [[(vec(v), lab) for v, lab in badel]], (f, "element")))
+        G.append(Group(f, NIL, [[(vec(num(good), v), lab) for v, lab in badel]], (f, "element after good")))
+        G.append(Group(f, NIL, [[(vec(v, NIL), lab) for v, lab in badel]], (f, "element before nil")))
+        G.append(Group(f, NIL, [[(NIL, "nil"), (st("a"), "str"), (num(97), "num"), (tup(num(97)), "tuple"), (vec(), "empty vec")]], (f, "argument")))
+    # from_ascii: every byte, and pairs around 127/128
+    G.append(Group("from_ascii", NIL, [[(vec(num(b)), "byte>=128" if b > 127 else "byte<128") for b in range(256)]], ("from_ascii",)))
+    edge = [0, 0x41, 127, 128, 169, 191, 192, 233, 255]
+    G.append(Group("from_ascii", NIL, [[(vec(num(a), num(b)), "%d%d" % (a > 127, b > 127)) for a, b in itertools.product(edge, repeat=2)]], ("from_ascii", "pair")))
+    # from_code_points: boundaries of the encoding lengths, surrogates, beyond 10FFFF
     cps = [0, 0x41, 0x7f, 0x80, 0x7ff, 0x800, 0xd7ff, 0xd800, 0xdfff, 0xe000, 0xffff, 0x10000, 0x10ffff, 0x110000, 0x1f600]
+    items = []
     for n in range(0, 3):
         for t in itertools.product(cps, repeat=n):
             ok = all(not (0xd800 <= c <= 0xdfff) and c <= 0x10ffff for c in t)
-            P.append(Probe("from_code_points", NIL, [vec(*[num(c) for c in t])], ("from_code_points", "%d cps" % n, "ok" if ok else "bad")))
-    # --- round trips through the language itself are covered by to_bytes/from_utf8 on the same pools
-    return P
+            items.append((vec(*[num(c) for c in t]), "%d cps %s" % (n, "ok" if ok else "bad")))
+    G.append(Group("from_code_points", NIL, [items], ("from_code_points",)))
+    return G
 
 
 def valid_kind(b):
@@ -474,23 +490,51 @@ def run_impl(binary, probes, per_program=60):
     return out, printed
 
 
-def run_model(probes, tag, batch=150):
-    wires = [p.wire() for p in probes]
-    groups = [wires[i:i + batch] for i in range(0, len(wires), batch)]
-    terms = []
+def batch_wire(groups):
+    """value table (each distinct value once) + rows (header group + one index group per argument list)"""
+    table = {}
+
+    def ref(v):
+        w = wire_of(v)
+        if w not in table:
+            table[w] = len(table)
+        return table[w]
+
+    rows = []
     for g in groups:
-        w = '"%s"%%string' % "|".join(g)
+        rows.append("%d %d %d %d %d" % (FN[g.fn], g.extra, ref(g.recv), len(g.lists), int(g.as_range)))
+        for l in g.lists:
+            rows.append(" ".join(str(ref(v)) for v, _ in l))
+    # table indices count VALUES (a vec is one value spanning several groups)
+    return ";".join(table.keys()) + "|" + ";".join(rows)
+
+
+def run_model(groups, tag, batch=700):
+    """groups -> (mech, spec) rendered outcomes per probe, in expansion order"""
+    batches, cur, n = [], [], 0
+    for g in groups:
+        cur.append(g)
+        n += g.size()
+        if n >= batch:
+            batches.append(cur)
+            cur, n = [], 0
+    if cur:
+        batches.append(cur)
+    terms = []
+    for b in batches:
+        w = '"%s"' % batch_wire(b)
         terms.append("run_mech_w %s" % w)
         terms.append("run_spec_w %s" % w)
-    nshard = max(1, min(4 * yvlib.NPROC, len(terms) // 2))
-    shard = 2 * max(1, (len(groups) + nshard - 1) // nshard)
+    nshard = max(1, min(3 * yvlib.NPROC, len(batches)))
+    shard = 2 * max(1, (len(batches) + nshard - 1) // nshard)
     vals = yvlib.coq_eval(["YV:StrRun"], terms, shard_size=shard, tag="C13" + tag, preamble=PRE)
     mech, spec = [], []
-    for i, g in enumerate(groups):
+    for i, b in enumerate(batches):
+        size = sum(g.size() for g in b)
         for dst, v in ((mech, vals[2 * i]), (spec, vals[2 * i + 1])):
-            parts = v.split("|") if v is not None else []
-            if len(parts) != len(g):
-                parts = [None] * len(g)
+            parts = v.split("|") if v is not None and size else []
+            if len(parts) != size:
+                parts = [None] * size
             dst.extend(parts)
     return mech, spec
 
@@ -526,10 +570,11 @@ def human(rendered):
     return rendered
 
 
-def check(ctx, probes, tag):
+def check(ctx, groups, tag):
     binary = ctx.harness("debug")
+    probes = [p for g in groups for p in g.probes()]
     impl, printed = run_impl(binary, probes)
-    mech, spec = run_model(probes, tag)
+    mech, spec = run_model(groups, tag)
     combos = set()
     n_viol = 0
     viol = []
@@ -585,11 +630,12 @@ def run(ctx):
     quick = ctx.quick()
     if ctx.replay_only:
         p = Probe.from_json(ctx.replay_only["probe"])
-        check(ctx, [p], "replay")
+        check(ctx, [p.group()], "replay")
         ctx.cov.update({"evaluations": 1, "distinct_nontrivial": 0, "rule": "replay of one probe", "samples": [p.snippet()]})
         return
-    probes = gen_probes(quick, ctx.rng)
-    combos, nprinted, nsample, n_viol = check(ctx, probes, "sweep")
+    groups = gen_groups(quick)
+    probes = [p for g in groups for p in g.probes()]
+    combos, nprinted, nsample, n_viol = check(ctx, groups, "sweep")
     per_fn = {}
     for p in probes:
         per_fn[p.fn] = per_fn.get(p.fn, 0) + 1
